@@ -219,8 +219,8 @@ class Fn:
             return self._defs
         d = defaultdict(list)
         for b, blk in enumerate(self.blocks):
-            if blk["cleanup"]:
-                continue
+            if blk["cleanup"] or blk.get("threaded"):
+                continue            # (threaded blocks are private copies made by analysis/lower.py: control flow only)
             for i, s in enumerate(blk["stmts"]):
                 if s["k"] == "Assign":
                     p = s["p"]
@@ -367,6 +367,64 @@ class Fn:
         base = self._local_term(l, depth)
         if not proj:
             return base
+        # a captured reference read out of a closure value: the closure is built once; `&mut closure` (an FnMut being called)
+        # does not change which places its by-reference captures denote
+        if base[0] == "var" and proj[0][0] == "field" and "{closure@" in self.locals[l]["ty"] and not self.locals[l]["ty"].startswith("&") and depth < 40:
+            cds = [d for d in self.defs().get(l, []) if d[0] == "assign"]
+            others = [d for d in self.defs().get(l, []) if d[0] not in ("assign", "addrmut")]
+            if len(cds) == 1 and not others and cds[0][3]["k"] == "Aggregate" and cds[0][3].get("agg") == "Closure" and proj[0][1] < len(cds[0][3]["ops"]):
+                op = cds[0][3]["ops"][proj[0][1]]
+                if op.get("k") in ("move", "copy") and self.locals[op["p"]["l"]]["ty"].startswith("&"):
+                    base = self.term_of_operand(op, cds[0][1], depth + 1)
+                    proj = proj[1:]
+                    while proj and base[0] == "ref" and proj[0][0] == "deref":
+                        base = base[1]
+                        proj = proj[1:]
+                    if not proj:
+                        return base
+        # the payload of a variant read out of a local with several definitions: only the definitions that build that very
+        # variant can supply it (`let r = if .. { Ok(v) } else { Err(e) }; .. (r as Ok).0` is v) - one such definition: its operand
+        if len(proj) >= 2 and proj[0][0] == "downcast" and proj[1][0] == "field" and proj[1][1] == 0 and depth < 40:
+            src_l = None
+            if base[0] == "var":
+                src_l, want = l, proj[0][2]
+            elif base[0] == "call" and base[1] and base[1].endswith("Try::branch") and proj[0][2] == "Continue" and base[2]:
+                inner = strip_refs(base[2][0])
+                if inner[0] == "var":
+                    src_l = inner[1]
+                    ty = self.locals[src_l]["ty"]
+                    want = "Ok" if "Result" in ty.split("<")[0] else ("Some" if "Option" in ty.split("<")[0] else None)
+            if src_l is not None and want is not None:
+                cands, clean = [], True
+                pays = {}
+                for d in self.defs().get(src_l, []):
+                    if d[0] == "assign" and d[3]["k"] == "Aggregate" and d[3].get("agg") == "Adt" and d[3].get("variant_name"):
+                        if d[3]["variant_name"] == want and len(d[3]["ops"]) == 1:
+                            cands.append(d)
+                    elif d[0] == "assign" and d[3]["k"] == "Use" and d[3]["op"].get("k") in ("move", "copy") and not d[3]["op"]["p"]["proj"] and d[3]["op"]["p"]["l"] != src_l:
+                        # `x = tmp` with tmp built as one variant
+                        tt = self._local_term(d[3]["op"]["p"]["l"], depth + 1)
+                        if tt[0] == "agg" and tt[1] == "Adt" and tt[2] and "::" in tt[2]:
+                            if tt[2].split("::")[-1] == want and len(tt[3]) == 1:
+                                cands.append(d)
+                                pays[id(d)] = tt[3][0]
+                        else:
+                            clean = False
+                    elif d[0] == "call" and (strip_generics(d[2].get("callee") or "")).endswith("FromResidual::from_residual"):
+                        pass                                    # an early exit's value: never the success variant
+                    else:
+                        clean = False
+                if clean and len(cands) == 1:
+                    d = cands[0]
+                    pay = pays[id(d)] if id(d) in pays else self.term_of_operand(d[3]["ops"][0], d[1], depth + 1)
+                    rest = proj[2:]
+                    if not rest:
+                        return pay
+                    names2 = []
+                    for e in rest:
+                        names2.append("*" if e[0] == "deref" else e[2] if e[0] == "field" else "as:" + e[2] if e[0] == "downcast" else e[0])
+                    if all(isinstance(x, str) for x in names2):
+                        return _rebase(pay, names2)
         # (x, y).0 of a checked arithmetic op -> the arithmetic result
         if base[0] == "bin" and base[1].endswith("WithOverflow") and proj[0][0] == "field":
             if proj[0][1] == 0:
@@ -476,8 +534,8 @@ class Fn:
         blocks = self.live_blocks() if live_only else range(len(self.blocks))
         for b in sorted(blocks):
             blk = self.blocks[b]
-            if blk["cleanup"]:
-                continue
+            if blk["cleanup"] or (blk.get("threaded") and blk.get("orig") in blocks):
+                continue            # a private copy whose original is live too: the original speaks for both
             t = blk["term"]
             if t["k"] == "Call":
                 yield b, t
@@ -496,7 +554,7 @@ class Fn:
         blocks = self.live_blocks() if live_only else range(len(self.blocks))
         for b in sorted(blocks):
             blk = self.blocks[b]
-            if blk["cleanup"]:
+            if blk["cleanup"] or (blk.get("threaded") and blk.get("orig") in blocks):
                 continue
             for i, s in enumerate(blk["stmts"]):
                 yield b, i, s
@@ -555,7 +613,11 @@ class Facts:
         self.raw = raw
         from .lower import lower_adaptors
         lower_adaptors(raw)                     # Option / Result adaptors with closure arguments -> explicit control flow
-        self.fns = [Fn(b, self) for b in raw["bodies"]]
+        allf = [Fn(b, self) for b in raw["bodies"]]
+        # closures whose every use was inlined by the lowering pass are no longer functions of their own (their statements
+        # are in the caller now); they stay reachable by path for term-level inlining
+        self.consumed = [f for f in allf if f.raw.get("consumed")]
+        self.fns = [f for f in allf if not f.raw.get("consumed")]
         self.by_npath = defaultdict(list)
         for f in self.fns:
             self.by_npath[f.npath].append(f)
@@ -579,7 +641,7 @@ class Facts:
         return [f for f in self.fns if f.kind == "Closure" and f.npath.startswith(pre)]
 
     def closure(self, npath):
-        hits = [f for f in self.fns if f.npath == npath]
+        hits = [f for f in self.fns + self.consumed if f.npath == npath]
         if not hits:
             raise KeyError("anchor missing: closure %s" % npath)
         return hits[0]
@@ -1041,6 +1103,9 @@ def success_value(F, t, depth=0):
         return ("bin", _CHECKED[nm], t[2][0], t[2][1])
     if nm in ("ok_or", "ok_or_else", "map_err", "branch", "ok", "copied", "cloned") and t[2] and t[1].startswith("core::"):
         return success_value(F, t[2][0], depth + 1)
+    if nm in ("try_from", "try_into") and len(t[2]) == 1 and t[1].startswith("core::convert"):
+        # a checked integer conversion succeeds with the value itself
+        return success_value(F, t[2][0], depth + 1) or t[2][0]
     if nm in ("and_then", "map") and len(t[2]) == 2 and t[1].startswith("core::"):
         inner = success_value(F, t[2][0], depth + 1)
         if inner is None:
